@@ -46,6 +46,8 @@ class SelSite:
         self.to_return = False
         self.dedup = False
         self.key_field = None  # for extremum selectors: field used as key
+        self.owner = fn.root
+        self.from_param = False  # the collection selected from is a parameter of the enclosing function
 
     @property
     def klass(self):
@@ -305,6 +307,7 @@ def find_sites(crate, fn):
             # key closure fields are not visibility tests
             s.fields -= set(s.key_field.split(",")) - _pred_fields(crate, c, elem)
         s.to_return = _flows_to_return(fn, place_local(c["dest"]))
+        s.from_param = bool(c["args"]) and _collection_is_param(fn, c["args"][0], elem)
         sites.append(s)
     # ---- loops
     dom = None
@@ -350,6 +353,25 @@ def find_sites(crate, fn):
         back = {b for b in body if bb in fn.succs(b) or any(_reach(fn, s2, bb, body) for s2 in fn.succs(b))}
         if dom is None:
             dom = fn.dominators()
+        # the element itself (a reference) handed to the return place: `return Some(def)` in a helper returning a borrow
+        for b2 in sorted(body):
+            hit = None
+            for st_ in fn.blocks[b2]["s"]:
+                if st_[0] != "=":
+                    continue
+                srcs = [place_local(p) for p in _rv_places(st_[2]) if p is not None and all(x == "*" for x in place_projs(p))]
+                if any(x in al for x in srcs) and place_local(st_[1]) not in al and st_[2][0] in ("agg", "use") \
+                        and _flows_to_return(fn, place_local(st_[1])) and not _reaches_header_only(fn, b2, bb, body):
+                    hit = st_
+            if hit is not None and "&" in fn.ret:
+                s = SelSite(fn, "loop", "early-exit", b2, hit[3], elem)
+                s.from_param = bool(c["args"]) and _collection_is_param(fn, c["args"][0], elem)
+                doms = {x for x in dom.get(b2, set()) if x in body} | {b2}
+                s.fields = _fields_in_blocks(fn, elem, al, doms)
+                s.filter_param = _filter_called_in(fn, al, doms)
+                s.path_cmp = _path_cmp_in_blocks(crate, fn, elem, al, doms)
+                s.to_return = True
+                sites.append(s)
         # uses of the element value: clone(e) / push
         for b2 in sorted(body):
             t2 = fn.blocks[b2]["t"]
@@ -370,6 +392,7 @@ def find_sites(crate, fn):
             if kind is None:
                 continue
             s = SelSite(fn, kind, "early-exit" if kind == "loop" else "push", b2, c2["span"], elem)
+            s.from_param = bool(c["args"]) and _collection_is_param(fn, c["args"][0], elem)
             doms = {x for x in dom.get(b2, set()) if x in body} | {b2}
             s.fields = _fields_in_blocks(fn, elem, al, doms)
             s.filter_param = _filter_called_in(fn, al, doms)
@@ -501,8 +524,59 @@ def _path_cmp_in_blocks(crate, fn, elem, aliases, blocks):
     return out
 
 
+def _collection_is_param(fn, op, elem, depth=0, seen=None):
+    """does the iterator / slice operand derive from a parameter of fn whose type mentions the element type?"""
+    seen = seen or set()
+    l = op_local(op)
+    if l is None or l in seen or depth > 14:
+        return False
+    seen.add(l)
+    if 1 <= l <= fn.argc and fn.kind in ("fn", "method"):
+        return elem in fn.local_ty(l)
+    for d in fn.whole_defs(l):
+        if d[0] == "call" and d[2]["args"]:
+            if classify_is_map_op(d[2]):
+                return False
+            if _collection_is_param(fn, d[2]["args"][0], elem, depth + 1, seen):
+                return True
+        elif d[0] == "assign":
+            rv = d[3]
+            if rv[0] == "use" and _collection_is_param(fn, rv[1], elem, depth + 1, seen):
+                return True
+            if rv[0] == "ref" and _collection_is_param(fn, ["cp", rv[2]], elem, depth + 1, seen):
+                return True
+    return False
+
+
+def classify_is_map_op(c):
+    return (c.get("res") or "").startswith("dashmap::")
+
+
 def all_sites(crate):
+    """all selection sites; each site gets an `owner`: the function it is attributed to in violation keys.  A site in a
+    private helper that has exactly one calling function is attributed to that caller (transitively), so that extracting a
+    stage of a resolver into a helper does not rename the site."""
     out = []
     for f in crate.real_fns():
         out.extend(find_sites(crate, f))
+    callers = defaultdict(set)
+    for f in crate.real_fns():
+        for bb, c in f.calls():
+            if c.get("res_local") and c.get("res") in crate.fns and c["res"] != f.root:
+                callers[c["res"]].add(f.root)
+            for cid, loc in c.get("clos", []):
+                g = crate.fns.get(cid)
+                if g is not None and g.kind in ("fn", "method") and cid != f.root:
+                    callers[cid].add(f.root)
+
+    def lift(fid, depth=0):
+        cs = callers.get(fid, set())
+        if len(cs) == 1 and depth < 1:
+            (c,) = tuple(cs)
+            if c != fid:
+                return lift(c, depth + 1)
+        return fid
+    for s in out:
+        # only a helper that is handed the collection lifts its site to the function that fetched the collection
+        s.owner = lift(s.fn.root) if s.from_param else s.fn.root
     return out
